@@ -220,12 +220,14 @@ fn handle_lag<T: Clone + 'static>(rx: &mut Receiver<BroadcastMessage<T>>) -> Opt
             Ok(m) => {
                 msg = Some(m);
             }
-            // Ideally we'd return a `VecDiff::Reset` with the last state before the
-            // channel was closed here, but we have no way of obtaining the last state.
+            // The channel was closed after the lag. If we drained at least one
+            // message, the last one holds the final state of the vector, which
+            // we use for the reset (the next poll then reports the end of the
+            // stream).
             Err(TryRecvError::Closed) => {
                 #[cfg(feature = "tracing")]
-                info!("Channel closed after lag, can't return last state");
-                return None;
+                info!("Channel closed after lag");
+                return msg.map(|msg| msg.state);
             }
             // Lagged twice in a row, is this possible? If it is, it's fine to just
             // loop again and look at the next try_recv result.
